@@ -772,7 +772,7 @@ func runC13(env *Env) {
 	}
 	nsmall, per := 2500, 150
 	if env.Thorough() {
-		nsmall, per = 40000, 1500
+		nsmall, per = 20000, 1000
 	}
 	for i := 0; i < nsmall; i++ {
 		progs := c13genSmall(env.Rng)
